@@ -189,26 +189,33 @@ theorem transplant_catRows (P : Profile) (σ : Settings) (n m m' : Nat) (s : St)
   · simp [validFor, rootInvKey, Key.name]
   · simp [validFor, rootKey, Key.name, rootTri]
 
-/-- **Transplant by `add_low_rank`, partial**: valid for the new matrix when the pair is exact and mutually
-inverse AND the parent's root is not a triangular operator (the code wraps the dense updated root as triangular
-otherwise); the parent's cache stays valid in every case. -/
-theorem transplant_addLowRank_partial (P : Profile) (σ : Settings) (n m m' : Nat) (s : St) (hs : Inv m s.cache) :
+/-- **Transplant by `add_low_rank`** (code after fix 98f87b2): valid for the new matrix whenever the parent's root and
+inverse root are an exact mutually-inverse pair — whatever class the parent's root has; the parent's cache stays valid
+in every case.  (Still conditional on pairing, which the code does not ensure: D30.) -/
+theorem transplant_addLowRank (P : Profile) (σ : Settings) (n m m' : Nat) (s : St) (hs : Inv m s.cache) :
     Inv m (addLowRank P σ n m m' s).1.cache ∧
     (paired (rootDecomp P σ n m .kwNone s).2 (rootInvDecomp P σ n m .kwNone (rootDecomp P σ n m .kwNone s).1).2 = true →
-     rootTri (rootDecomp P σ n m .kwNone s).2 = false →
       Inv m' (addLowRank P σ n m m' s).2) := by
   have h1 := good_root P σ n m .kwNone s hs
   have h2 := good_rootInv P σ n m .kwNone _ h1.1
   refine ⟨h2.1, ?_⟩
-  intro hp ht
+  intro hp
   obtain ⟨p, tri, triOk, hv, _⟩ := valid_rootKey m h1.2
-  rw [hv] at hp ht
+  rw [hv] at hp
   unfold addLowRank
-  simp only [hv, hp, ht, valMat, Bool.true_and, beq_self_eq_true, if_true]
+  simp only [hv, hp, valMat, Bool.true_and, beq_self_eq_true, if_true]
   apply inv_pair
   · simp [rootKey, rootInvKey]
   · simp [validFor, rootKey, Key.name]
   · simp [validFor, rootInvKey, Key.name]
+
+/-- Under default settings (Cholesky roots) the pair is mutually inverse, so `add_low_rank` on a fresh object yields a
+valid cache, and `logdet` / `inv_quad_logdet` on the new object is acceptable (the D31 history, now correct). -/
+theorem addLowRank_default_then_logdet_ok :
+    Inv 2 (addLowRank Profile.base ⟨800, true, true, true⟩ 6 1 2 ⟨[], 0, []⟩).2 ∧
+    answerOk 2 .iql (runQuery Profile.base ⟨800, true, true, true⟩ 6 2 .iql
+        ⟨(addLowRank Profile.base ⟨800, true, true, true⟩ 6 1 2 ⟨[], 0, []⟩).2, 0, []⟩).2 :=
+  ⟨(transplant_addLowRank Profile.base ⟨800, true, true, true⟩ 6 1 2 ⟨[], 0, []⟩ (Inv.nil 1)).2 (by decide), by decide⟩
 
 /-- D30 (as the code is): a fresh 6×6 object with `max_cholesky_size = 1` (Lanczos regime); `add_low_rank`
 obtains root and inverse root from two different Lanczos runs, and the entry it writes into the new object's
@@ -222,17 +229,18 @@ theorem transplant_catRows_lanczos_counterexample :
     ∃ k v, (catRows Profile.base ⟨1, true, true, true⟩ 6 1 2 ⟨[], 0, []⟩).2.get k = some v ∧ ¬ validFor 2 k v :=
   ⟨rootKey .noargs, Val.root .transplant false false 0, by decide, by decide⟩
 
-/-- D31 (as the code is): default settings (Cholesky roots, exact and mutually inverse); `add_low_rank` stores the
-dense updated root flagged as triangular, which is not a valid `root_decomposition` entry … -/
-theorem transplant_triangular_counterexample :
-    ∃ k v, (addLowRank Profile.base ⟨800, true, true, true⟩ 6 1 2 ⟨[], 0, []⟩).2.get k = some v ∧ ¬ validFor 2 k v :=
+/-- D31 (OLD formula, fixed in 98f87b2 — a statement about `addLowRankOldWrapping`, not about the current code): with
+default settings (Cholesky roots, exact and mutually inverse) the old code stored the dense updated root flagged as
+triangular, which is not a valid `root_decomposition` entry … -/
+theorem oldWrapping_triangular_counterexample :
+    ∃ k v, (addLowRankOldWrapping Profile.base ⟨800, true, true, true⟩ 6 1 2 ⟨[], 0, []⟩).2.get k = some v ∧ ¬ validFor 2 k v :=
   ⟨rootKey .noargs, Val.root .transplant true false 2, by decide, by decide⟩
 
-/-- … and `logdet` / `inv_quad_logdet` on the new object then use it as a Cholesky factor: the answer is not
-acceptable, although the same query on a fresh copy is (by `history_transparent`). -/
-theorem transplant_triangular_breaks_logdet :
+/-- … and `logdet` / `inv_quad_logdet` on the new object then used it as a Cholesky factor: a re-introduction of the
+wrapping makes this query unacceptable again (contrast `addLowRank_default_then_logdet_ok`). -/
+theorem oldWrapping_breaks_logdet :
     ¬ answerOk 2 .iql (runQuery Profile.base ⟨800, true, true, true⟩ 6 2 .iql
-        ⟨(addLowRank Profile.base ⟨800, true, true, true⟩ 6 1 2 ⟨[], 0, []⟩).2, 0, []⟩).2 := by
+        ⟨(addLowRankOldWrapping Profile.base ⟨800, true, true, true⟩ 6 1 2 ⟨[], 0, []⟩).2, 0, []⟩).2 := by
   decide
 
 /-! ### the algebra of the transplants (Mathlib matrices over any commutative ring) -/
